@@ -248,18 +248,23 @@ Print Assumptions bad_option_value_rejected_w.
    Vocabulary of C01 (Model/Spell.v): d : ld is a line description - command-name spellings, option items in their written
    forms, positionals, "--" tail; render d its tokens; values d its positional values; events d what it gives to the
    options; wf_line f d the conditions under which parse f len (render d) = Ok (denote f d) (C01.parse_spells).
-   wf_line f d = forms_ok f d (the written forms are unambiguous; Proofs/ClassifyLineLemmas.v, with the conversions of the
-   option texts taken out) && fits (no more values than arguments, every text converts) && req_ok (every required
-   argument gets a value):  well_formed_line_conjuncts.  Each clause below keeps forms_ok and breaks ONE other conjunct.
+   wf_line f d = forms_ok f d (the written forms are unambiguous; Proofs/ClassifyLineLemmas.v: the conjuncts names_ok,
+   items_ok, no_clash of wf_line with the conversions of the option texts taken out) && texts_convert d (every option text
+   converts) && fits (no more values than arguments - shape - and every value converts) && req_ok (every required argument
+   gets a value):  well_formed_line_is.  Each clause below keeps forms_ok and breaks ONE other conjunct.
    fmt_ok f is the format hypothesis of parse_spells (true of every API-built format, C01.api_format_fmt_ok);
    opts_listed_ok f: the options f lists are valid objects (the opts_ok_w of above, read off the option list of f).
    From here on long_tok, no_eq, is_flag, names_ok unqualified are those of Model/Spell.v. *)
 From Clikit Require Import Model.Spell Proofs.SpellArgs Proofs.ClassifyLineLemmas.
 
-Theorem well_formed_line_conjuncts : forall f d, wf_line f d = true ->
-  forms_ok f d = true /\ fits (get_arguments_all f) (values d) = true /\ req_ok (get_arguments_all f) (values d) = true.
-Proof. exact wf_line_forms. Qed.
-Print Assumptions well_formed_line_conjuncts.
+Theorem well_formed_line_is : forall f d,
+  wf_line f d = forms_ok f d && texts_convert d &&
+                fits (get_arguments_all f) (values d) && req_ok (get_arguments_all f) (values d).
+Proof. exact wf_line_conjuncts. Qed.
+Print Assumptions well_formed_line_is.
+Theorem fitting_values_fit_in_number : forall A V, fits A V = true -> shape A V = true.
+Proof. exact fits_shape. Qed.
+Print Assumptions fitting_values_fit_in_number.
 
 (* ---- clause 5: the line carries more positional values than the format declares arguments ---- *)
 Theorem surplus_positional_rejected : forall f d,
